@@ -6,7 +6,8 @@ EXPLANATION = ("Decides on the MIR of the current tree: the u64 carrier is lossl
                "ways, bool encoding), the operator computed by the closure of each fetch_* method of each atomic type equals std's documented "
                "operator on the decoded T incl. operand order and signedness (N2), compare_exchange / compare_and_swap / compare_exchange_weak / "
                "fetch_update shapes (N3) and the decode-before / encode-after discipline of rt::Atomic incl. with_mut write-back and the "
-               "most-recent-store index (N4). Numeric equality for all operands relies on std's semantics of wrapping_add etc. (trusted).")
+               "most-recent-store index (N4). Numeric equality for all operands relies on std's semantics of wrapping_add etc. (trusted)."
+               " fetch_update returns Err only when the user function itself yields None (N3 none-only).")
 RULE_TEXT = "rule instances = Numeric impls, (type, fetch-op) closures, front-end methods; non-trivial when matched to a concrete MIR body"
 LEVEL_NOTE = "necessary conditions only; std operator semantics trusted"
 WITNESSES = ['C12WithMutNeedsMut']
